@@ -5,8 +5,10 @@
 set -u
 P=$1; S=$2; PROPS=$3; DB=${4:-_build}
 cd /verif
+if [ -z "${SEED_VERIFIED:-}" ]; then   # SEED_VERIFIED=1: verify_seed.sh was already run (in parallel) and said SEED-OK
 out=$(tools/verify_seed.sh /tmp/seed/$P $DB 2>&1 | tail -4); echo "$out"
 echo "$out" | grep -q SEED-OK || { echo "NOT IMPORTED"; exit 1; }
+fi
 python3 tools/import_seed.py $P /tmp/seed/$P $P-$S || exit 1
 python3 - "$P" "$S" "$PROPS" <<'PY'
 import sys
